@@ -111,7 +111,63 @@ def _validate_shard(args):
     return {"prints": parse_prints(out), "stats": parse_stats(out), "idx": idx, "wall": wall}
 
 
+CORRUPT_KEYS = {"v", "res", "pos", "size", "read", "write", "mul", "add", "upd", "numiters", "count_a", "val", "val_back", "tf", "skip", "lf", "resid", "eq", "unsplit",
+                "digest2", "dflt1", "mutable1", "files_same", "ops_unchanged"}
+CORRUPT_LISTS = {"rootp", "swaps", "bodies", "iteract", "shape", "act", "zact"}
+
+
+def corrupt(rec, seed):
+    """self-test: change ONE value the implementation produced in a deep copy of the record (deterministic in seed).  Returns (record, path) or (record, None)"""
+    import copy
+    import random
+    rng = random.Random(seed)
+    r = copy.deepcopy(rec)
+    spots = []
+
+    def walk(x, path, key):
+        if isinstance(x, dict):
+            for k, v in x.items():
+                if k in ("tid", "init", "act", "kernel", "ops", "ops0", "ops1", "tree", "a", "z0", "script", "case"):
+                    continue
+                walk(v, path + [k], k)
+        elif isinstance(x, list):
+            for n, v in enumerate(x):
+                walk(v, path + [n], key)
+        elif isinstance(x, bool):
+            if key in CORRUPT_KEYS or (isinstance(key, str) and key.startswith("eq_")):
+                spots.append(path)
+        elif isinstance(x, int):
+            if key in CORRUPT_KEYS or key in CORRUPT_LISTS:
+                spots.append(path)
+    walk(r, [], None)
+    if not spots:
+        return r, None
+    path = rng.choice(spots)
+    x = r
+    for k in path[:-1]:
+        x = x[k]
+    old = x[path[-1]]
+    x[path[-1]] = (not old) if isinstance(old, bool) else old + 1 + rng.randint(0, 2)
+    return r, path
+
+
 def validate(module, cfg, behaviours, name, shards=16, env=None, timeout=3600):
+    if os.environ.get("VERIF_CORRUPT"):
+        out = []
+        global LAST_CORRUPTED
+        LAST_CORRUPTED = {}
+        for b in behaviours:
+            c, path = corrupt(b, b.get("tid", 0) * 7919 + int(os.environ.get("VERIF_CORRUPT_SEED", "1")))
+            out.append(c)
+            LAST_CORRUPTED[b["tid"]] = path
+        behaviours = out
+    return _validate(module, cfg, behaviours, name, shards, env, timeout)
+
+
+LAST_CORRUPTED = {}
+
+
+def _validate(module, cfg, behaviours, name, shards=16, env=None, timeout=3600):
     """behaviours: list of dict, each gets a 'tid' (1-based, global).  Every behaviour must come back with exactly
     one verdict record {"tid":..,"fails":[[step, clause],..], ...}.  Returns (verdicts by tid, stats)."""
     d = workdir("val_" + name)
